@@ -70,7 +70,9 @@ def reader_harness(L, sw, ch, sr, K, overlap, limit, record, srckind="bytes", fr
                     kw.pop(k_)
             else:
                 fs = iostub.FS()
-                if srckind == "raw":
+                if srckind == "stdin":
+                    inp = "-"
+                elif srckind == "raw":
                     fs.files["f.raw"] = iostub.RawEntry(data)
                     inp = "f.raw"
                     kw["large_file"] = True
@@ -80,7 +82,7 @@ def reader_harness(L, sw, ch, sr, K, overlap, limit, record, srckind="bytes", fr
                     kw["large_file"] = True
                     for k_ in ("sr", "sw", "ch"):
                         kw.pop(k_)
-                iostub.install(L, fs)
+                iostub.install(L, fs, stdin_data=data if srckind == "stdin" else None)
             r = util.AudioReader(inp, **kw)
             r.open()
         except Exception as ex:
@@ -143,6 +145,53 @@ def reject_harness(L, sr, case):
     return path
 
 
+def fp_harness(L, sr, overlap):
+    """K shape: the sizes the real constructors compute from *doubles*.  block_dur / hop_dur are bit-exact IEEE doubles,
+    the product with the (concrete) rate is the correctly rounded one Python computes, and the claim is the statement's
+    floor(block_dur*rate) read with Python's float semantics."""
+    from ..fp import SymFP, F, RNE, fpv, fp_to_float
+    util = L.modules["util"]
+
+    def path(e):
+        e.fresh_logic = "QF_FP"
+        d, h = z3.FP("d", F), z3.FP("h", F)
+        fin = [z3.Not(z3.fpIsNaN(x)) for x in (d, h)] + [z3.Not(z3.fpIsInf(x)) for x in (d, h)]
+        e.add(z3.And(*fin, z3.fpGEQ(d, fpv(-1.0)), z3.fpLEQ(d, fpv(1000.0)), z3.fpGT(h, fpv(0.0)), z3.fpLEQ(h, fpv(1000.0))))
+        pd, ph = z3.fpMul(RNE, d, fpv(float(sr))), z3.fpMul(RNE, h, fpv(float(sr)))
+        fd, fh = z3.fpRoundToIntegral(z3.RTN(), pd), z3.fpRoundToIntegral(z3.RTN(), ph)
+        kw = dict(block_dur=SymFP(d), sr=sr, sw=2, ch=1)
+        if overlap:
+            kw["hop_dur"] = SymFP(h)
+        try:
+            r = util.AudioReader(b"\0\0" * 4, **kw)
+            bs, hs = r.block_size, r.hop_size
+            outcome = "accepted"
+        except ValueError:
+            outcome = "ValueError"
+        except Exception as ex:
+            outcome = "raised %s: %s" % (type(ex).__name__, str(ex)[:80])
+        # hop of less than one sample: outside the claim (assumption H >= 1)
+        ante = z3.fpGEQ(ph, fpv(1.0)) if overlap else z3.BoolVal(True)
+        if outcome == "accepted":
+            goal = z3.And(z3.fpGT(d, fpv(0.0)), z3.fpGEQ(fd, fpv(1.0)), z3.fpEQ(fpv(bs), fd))
+            if overlap:
+                goal = z3.And(goal, z3.fpLEQ(h, d), z3.fpEQ(fpv(hs), z3.If(z3.fpEQ(h, d), fd, fh)))
+        elif outcome == "ValueError":
+            goal = z3.Or(z3.fpLEQ(d, fpv(0.0)), z3.fpLT(pd, fpv(1.0)))
+            if overlap:
+                goal = z3.Or(goal, z3.fpGT(h, d))
+        else:
+            goal = z3.BoolVal(False)
+        res, m = e.refute(z3.Implies(ante, goal))
+        if res == "unsat":
+            return {"status": "ok", "outcome": outcome}
+        if res == "sat":
+            return {"status": "cex", "failing": ["%s: block/hop size is not floor(duration*rate) in double arithmetic" % outcome],
+                    "cex": {"kind": "fp", "sr": sr, "overlap": overlap, "d": fp_to_float(m, d).hex(), "h": fp_to_float(m, h).hex()}}
+        return {"status": "unknown", "why": "no verdict on the FP size lemma within the time-out"}
+    return path
+
+
 def now(e, why, syms, meta):
     m = e.model()
     if m is None:
@@ -172,6 +221,26 @@ def replay_fn(c):
     import tempfile
     import wave as _wave
     ak = loader.real_auditok()
+    if c.get("kind") == "fp":
+        import math
+        d, h, sr = float.fromhex(c["d"]), float.fromhex(c["h"]), c["sr"]
+        kw = dict(block_dur=d, sr=sr, sw=2, ch=1)
+        if c["overlap"]:
+            kw["hop_dur"] = h
+        desc = "AudioReader(block_dur=%r%s, sr=%d)" % (d, ", hop_dur=%r" % h if c["overlap"] else "", sr)
+        must_reject = d <= 0 or d * sr < 1 or (c["overlap"] and h > d)
+        try:
+            r = ak.AudioReader(b"\0\0" * 4, **kw)
+        except ValueError as ex:
+            return [] if must_reject else [("C10: a valid block_dur/hop_dur is rejected", desc + " raises %s" % type(ex).__name__)]
+        if must_reject:
+            return [("C10: block_dur shorter than one sample / hop longer than block is accepted", desc + " is accepted with block_size %s" % r.block_size)]
+        out = []
+        if r.block_size != math.floor(d * sr):
+            out.append(("C10: block size is not floor(block_dur*rate)", desc + ": block_size %d, floor(%r) = %d" % (r.block_size, d * sr, math.floor(d * sr))))
+        if c["overlap"] and h != d and r.hop_size != math.floor(h * sr):
+            out.append(("C10: hop size is not floor(hop_dur*rate)", desc + ": hop_size %d, floor(%r) = %d" % (r.hop_size, h * sr, math.floor(h * sr))))
+        return out
     if c.get("kind") == "reject":
         data = byt.concrete_bytes(c["n"] * 2)
         try:
@@ -217,6 +286,22 @@ def replay_fn(c):
         elif c["srckind"] == "source":
             from auditok import io as rio
             r = ak.AudioReader(rio.BufferAudioSource(data, sr, sw, ch), **kw)
+        elif c["srckind"] == "stdin":
+            import io as _io
+            import sys as _sys
+
+            class _Pipe(_io.BytesIO):
+                def read1(self, k=-1):
+                    return _io.BytesIO.read(self, 1 if k != 0 else 0)
+
+            class _S:
+                buffer = _Pipe(data)
+            old_stdin = _sys.stdin
+            _sys.stdin = _S()
+            try:
+                r = ak.AudioReader("-", sr=sr, sw=sw, ch=ch, **kw)
+            finally:
+                _sys.stdin = old_stdin
         else:
             tmp = tempfile.mkdtemp(prefix="sxv-c10-")
             if c["srckind"] == "raw":
@@ -272,7 +357,7 @@ def run(rep):
                       ", raw file, wav file (lazy)" , byt.fmts(tier)[:3])}
     rep.explanation = ("Real AudioReader/_FixedSizeAudioReader/_OverlapAudioReader/_Limiter/_Recorder over an uninterpreted byte sequence; "
                        "z3 proves block k == V[k*H : min(k*H+B,|V|)] and the exact block-existence condition for all n, B, H, M.")
-    rep.assumptions = ["block_dur = B/rate, hop_dur = H/rate, max_read = Mq/(4*rate) as exact rationals (float rounding of d*rate outside the claim)",
+    rep.assumptions = ["framing harnesses: block_dur = B/rate, hop_dur = H/rate, max_read = Mq/(4*rate) as exact rationals; the sizes computed from doubles are the subject of the fp-sizes lemma (block_dur, hop_dur any double in (-1, 1000], rates listed there)",
                        "H >= 1 (hop of at least one sample)", "I/O stubs for file inputs"]
     rep.outside = ["more than %d reads" % K, "pydub formats, microphone"]
     fm = byt.fmts(tier)[:2] if tier == "quick" else byt.fmts(tier)[:4]
@@ -291,7 +376,7 @@ def run(rep):
         ex = explore(reader_harness(L, 2, 1, 10, min(K, 6), True, limit, False, "bytes", frac=True))
         rep.add_exploration(hn, ex)
         tok.handle_cex(rep, hn, ex, replay_fn, ideal=True)
-    for srckind in ("source", "raw", "wav"):
+    for srckind in ("source", "raw", "wav", "stdin"):
         for overlap in (False, True):
             hn = "reader[%s,K=%d,%slimit]" % (srckind, min(K, 6), "overlap," if overlap else "")
             ex = explore(reader_harness(L, 2, 1, 10, min(K, 6), overlap, True, False, srckind))
@@ -302,4 +387,10 @@ def run(rep):
             ex = explore(reject_harness(L, sr_, case), workers=1)
             rep.add_exploration("reject[%s,sr=%d]" % (case, sr_), ex)
             tok.handle_cex(rep, "reject[%s]" % case, ex, replay_fn)
+    for sr_ in (10, 100, 8000, 16000, 44100):
+        for overlap in (False, True):
+            hn = "fp-sizes[sr=%d,%s]" % (sr_, "overlap" if overlap else "no overlap")
+            ex = explore(fp_harness(L, sr_, overlap), workers=4, timeout_ms=120000, path_wall_s=600)
+            rep.add_exploration(hn, ex)
+            tok.handle_cex(rep, hn, ex, replay_fn)
     rep.witness("rejection paths reached", True)
